@@ -118,6 +118,7 @@ type Kernel struct {
 	listeners    map[string]*Listener
 	stubs        map[string]StubFactory
 	udpSt        *udpState
+	fsTrace      []string
 	udpBusyPorts map[int]bool
 	lockReqs     []*lockReq
 	writeReqs    []*writeReq
@@ -239,6 +240,13 @@ func (k *Kernel) Note(format string, a ...interface{}) {
 
 // Tracing reports whether the trace is recorded.
 func (k *Kernel) Tracing() bool { return k.TraceOn }
+
+// traceFs records a file-system operation in the trace (lal goroutines call this; the trace mutex is k.mu).
+func (k *Kernel) traceFs(s string) {
+	k.mu.Lock()
+	k.fsTrace = append(k.fsTrace, s)
+	k.mu.Unlock()
+}
 
 // Abort stops the run without a verdict (budget exhausted, harness trouble).
 func (k *Kernel) Abort(reason string) { panic(abortSignal{reason}) }
@@ -709,6 +717,12 @@ func lockClass(site string) string {
 
 // collect hands lal's new output to the actors, in canonical connection order.
 func (k *Kernel) collect() {
+	if k.TraceOn {
+		k.mu.Lock()
+		k.trace = append(k.trace, k.fsTrace...)
+		k.fsTrace = nil
+		k.mu.Unlock()
+	}
 	for i := 0; i < len(k.conns); i++ { // handlers may add conns
 		c := k.conns[i]
 		if c.dead {
